@@ -9,7 +9,7 @@ pub mod sweep;
 pub mod modes;
 pub mod product;
 
-pub use machine::{EnumMachine, Machine};
+pub use machine::{ConstTable, EnumMachine, Machine};
 pub use reference::ERR_FLAG;
 
 use std::collections::HashMap;
@@ -95,6 +95,10 @@ pub fn cli_main(machines: Vec<Box<dyn Machine>>, enums: Vec<Box<dyn EnumMachine>
         "builder" => {
             let refs: Vec<(&dyn Machine, &spec::MachineSpec)> = paired.iter().map(|&(m, s)| (m as &dyn Machine, s as &spec::MachineSpec)).collect();
             modes::builder(&refs, get("--full-w", "8").parse().unwrap(), get("--cap", "65536").parse().unwrap(), threads)
+        }
+        "consteval" => {
+            let refs: Vec<(&dyn Machine, &spec::MachineSpec)> = paired.iter().map(|&(m, s)| (m as &dyn Machine, s as &spec::MachineSpec)).collect();
+            modes::consteval(&refs, &epaired)
         }
         "debug" => {
             let refs: Vec<(&dyn Machine, &spec::MachineSpec)> = paired.iter().map(|&(m, s)| (m as &dyn Machine, s as &spec::MachineSpec)).collect();
